@@ -122,6 +122,91 @@ def check_history(ctx, h, full, bases):
     return None
 
 
+def kwc(rng, w):
+    return "".join(c.upper() if rng.random() < 0.5 else c.lower() for c in w) if rng.random() < 0.6 else w
+
+
+def gen_alter_args(rng):
+    """flat arguments of the alt_spec command (Spec/Alter.v alter_of_args): one ALTER TABLE statement of the fragment"""
+    names = ["a", "b2", "user_id", "Name", "qty", "created_at", "x_1", "ZIP", "k9", "val"]
+    head = [kwc(rng, "ALTER"), kwc(rng, "TABLE"), rng.choice(["", "", "s", "Dev"]), rng.choice(["t", "orders", "Users", "line_items"])]
+    def nlist():
+        k = rng.choice([1, 1, 2, 3, 5, 9])
+        l = rng.sample(names, min(k, len(names)))
+        return [str(len(l))] + l
+    def cons():
+        return [kwc(rng, "CONSTRAINT"), rng.choice(["pk_1", "uq_x", "fk_orders"])] if rng.random() < 0.5 else ["", ""]
+    form = rng.randrange(8)
+    if form == 0:
+        return head + ["DROP", kwc(rng, "DROP"), kwc(rng, "COLUMN"), rng.choice(names)]
+    if form == 1:
+        return head + ["REN", kwc(rng, "RENAME"), kwc(rng, "COLUMN"), rng.choice(names), rng.choice(["TO", "to"]), rng.choice(names)]
+    if form == 2:
+        return head + ["ADDC", kwc(rng, "ADD"), rng.choice(names), rng.choice(["int", "text", "DATE", "bigint"])]
+    if form == 3:
+        kind = rng.choice(["MC", "AC", "M"])
+        k1, k2 = {"MC": ("MODIFY", "COLUMN"), "AC": ("ALTER", "COLUMN"), "M": ("MODIFY", "")}[kind]
+        return head + ["MOD", kind, kwc(rng, k1), kwc(rng, k2) if k2 else "", rng.choice(names), rng.choice(["varchar", "int", "NUMBER"]),
+                       rng.choice(["", "10", "255", "0"])]
+    if form in (4, 5):
+        kind = rng.choice(["U", "P"])
+        return head + ["KEY", kwc(rng, "ADD")] + cons() + ([kind, kwc(rng, "UNIQUE"), ""] if kind == "U" else [kind, kwc(rng, "PRIMARY"), kwc(rng, "KEY")]) + nlist()
+    cols = nlist()
+    rcols = [cols[0]] + ["r%d" % i for i in range(int(cols[0]))]
+    od = [kwc(rng, "ON"), kwc(rng, "DELETE"), rng.choice(["CASCADE", "restrict"])] if rng.random() < 0.5 else ["", "", ""]
+    ou = [kwc(rng, "ON"), kwc(rng, "UPDATE"), rng.choice(["CASCADE", "restrict"])] if rng.random() < 0.4 else ["", "", ""]
+    return head + ["FK", kwc(rng, "ADD")] + cons() + [kwc(rng, "FOREIGN"), kwc(rng, "KEY")] + cols + \
+        [kwc(rng, "REFERENCES"), rng.choice(["", "o"]), rng.choice(["p", "parents"])] + rcols + od + ou
+
+
+def theorem_forms(ctx, res):
+    """the forms under C04_alter_statement_exact: expected statement entity = the extracted Coq denote"""
+    rng = ctx.rng
+    n = 1500 if ctx.thorough else 300
+    asts = [gen_alter_args(rng) for _ in range(n)]
+    for norm in (False, True):
+        sp = ctx.model.map([("alt_spec", ["1" if norm else "0"] + a) for a in asts])
+        texts = []
+        for s_ in sp:
+            if "lexemes" not in s_:
+                texts.append(None)
+                continue
+            out = ""
+            lx = s_["lexemes"]
+            for i, (rule, txt) in enumerate(lx):
+                glue = rule == "t_DOT" or (i > 0 and lx[i - 1][0] == "t_DOT")
+                out += txt if glue else ((" " if i else "") + txt + (" " if rng.random() < 0.2 else ""))
+            texts.append(out + " ")
+        SC = ctx.model.map([("scan", [t or ""]) for t in texts])
+        TR = ctx.impl.map([{"op": "trace", "s": t or "", "ctor": {"normalize_names": norm}} for t in texts])
+        res.evaluations += len(asts)
+        for a, s_, x, sc, tr in zip(asts, sp, texts, SC, TR):
+            if not s_.get("wf"):
+                res.count("theorem_form:not_wf")
+                continue
+            res.count("theorem_form:" + a[4])
+            if "ok" not in sc or [list(l) for l in sc["ok"]] != [list(l) for l in s_["lexemes"]]:
+                res.violation("correspondence", "the scanner model does not cut the rendered statement into the lexemes of the specification",
+                              stmt=x, oracle="scan")
+                continue
+            io = impl_outcome(tr)
+            got = canon_impl(io[1]["result"]) if io[0] == "ok" and io[1]["result"] is not None else ("raise/none", str(io)[:200])
+            if got != canon_model(s_["denote"]):
+                res.violation("input", "parser stage: the ALTER entity differs from the Coq specification (Alter.denote): %s" %
+                              (json.dumps(py_of_impl(io[1]["result"]))[:500] if io[0] == "ok" else str(io)), stmt=x, norm=norm, args=a,
+                              oracle="coq_denote")
+            else:
+                res.nontrivial.add(x)
+        # whole scripts: a table, then the statement (model run vs implementation run)
+        if not norm:
+            scripts = []
+            for a, s_, x in zip(asts, sp, texts):
+                if s_.get("wf"):
+                    tn = ((a[2] + ".") if a[2] else "") + a[3]
+                    scripts.append("CREATE TABLE %s (a int, b2 int, user_id int, Name text, qty int, created_at date, x_1 int, ZIP int, k9 int, val int);\n%s;\n" % (tn, x.rstrip()))
+            corr_run(ctx, res, scripts[:: (1 if ctx.thorough else 3)], label="F:run(alter forms)")
+
+
 def run(ctx, res):
     rng = ctx.rng
     n = 3000 if ctx.thorough else 350
@@ -161,6 +246,8 @@ def run(ctx, res):
         sub = st[:: (1 if ctx.thorough else 2)]
         corr_parse(ctx, res, [s_ for a in sub if "ok" in a for s_ in a["ok"]["statements"]], norms=(False,))
         corr_run(ctx, res, [h["text"] for h in hs[:: (1 if ctx.thorough else 2)]])
+    if ctx.model:
+        theorem_forms(ctx, res)
     # ---- a later run() in the same process must not see the tables of an earlier one ---------------------------
     pairs = []
     for h in hs[: (400 if ctx.thorough else 60)]:
